@@ -24,13 +24,26 @@ ENTRIES = {
 }
 
 
-def gate_sets(ctx, cfg, path):
+# Gates that are not questions about the input: the exit of a `for` loop (every list ends), and refusals on upward overflow of usize arithmetic
+# (sums of lengths and indexes of real lists stay below 2^57; an unconstrained integer parameter that overflows them was refused by the same
+# arithmetic before, wherever it was written).  Where such a check sits moves with the form of the code (closure + collect / loop + push).
+NOT_CONDITIONS = ('Iterator::next', '::checked_add', '::checked_mul', '::checked_next_power_of_two')
+
+
+def _question(g):
+    w = g.what or ''
+    return '::'.join(w.split('::')[-2:]) if '::' in w else w
+
+
+def gate_sets(ctx, cfg, path, with_question=False):
     prog, ga = ctx.prog(cfg), ctx.gates(cfg)
     b = prog.bodies[path]
     out = set()
     for ap in ga.accept_paths(path):
         for g in ap['gates']:
             if g.kind == 'deleg':
+                continue
+            if g.kind == 'call' and (g.what or '').endswith(NOT_CONDITIONS):
                 continue
             rs = set()
             for a in g.all_atoms():
@@ -40,14 +53,21 @@ def gate_sets(ctx, cfg, path):
                     # computed (`(len - 80) / 32` vs checked_sub chains) and would make the fingerprint depend on form
                     rs.add(b.local_name(st[1]) or 'p%d' % st[1])
             if rs:
-                out.add(frozenset(rs))
+                out.add((_question(g), frozenset(rs)) if with_question else frozenset(rs))
     return out
 
 
 def load_table():
     with open(TABLE_FILE) as f:
         raw = json.load(f)
-    return {k: [frozenset(x) for x in v] for k, v in raw.items()}
+    return {k: [frozenset(x) for x in v] for k, v in raw.items() if not k.startswith('__')}
+
+
+def load_questions():
+    """{entry: [(operator / callee of the test, inputs)]} as reviewed"""
+    with open(TABLE_FILE) as f:
+        raw = json.load(f).get('__questions__', {})
+    return {k: [(q, frozenset(x)) for q, x in v] for k, v in raw.items()}
 
 
 def _is_union(s, tab):
@@ -61,6 +81,7 @@ def _is_union(s, tab):
 def rule_gate_sets(ctx, cfg='prod-all', group='bbs', only=None):
     prog = ctx.prog(cfg)
     table = load_table()
+    questions = load_questions()
     n = 0
     for e in ENTRIES[group]:
         if only and not any(e.endswith(o) for o in only):
@@ -69,8 +90,14 @@ def rule_gate_sets(ctx, cfg='prod-all', group='bbs', only=None):
         if body.path not in table:
             raise AnchorMissing('gate sets of %s are not tabled' % body.path)
         tab = table[body.path]
-        now = gate_sets(ctx, cfg, body.path)
-        new = [sorted(s) for s in now if s not in tab and not _is_union(s, tab)]
+        now = gate_sets(ctx, cfg, body.path, with_question=True)
+        qtab = questions.get(body.path, [])
+        # the same test (operator / callee) on fewer inputs than tabled is the tabled question asked with a more precise dependence
+        # (the dependence of a value on the inputs is an over-approximation whose precision moves with the form of the code)
+        new = sorted({tuple(sorted(s)) for q, s in now if s not in tab and not _is_union(s, tab)
+                      and not any(q == q2 and s <= s2 for q2, s2 in qtab)})
+        new = [list(x) for x in new]
+        now = {s for q, s in now}
         n += 1
         yield Ob('RF-W', '%s#acceptance-conditions' % body.path, not new,
                  'every comparison success depends on tests a combination of inputs that was tested before (no new kind of acceptance condition)',
